@@ -132,7 +132,7 @@ def load_known() -> list[dict[str, Any]]:
     if KNOWN_FINDINGS.exists():
         for ln in KNOWN_FINDINGS.read_text().splitlines():
             ln = ln.strip()
-            if ln and not ln.startswith("#"):
+            if ln.startswith("{"):      # "fixed: ..." records and comments are plain text and suppress nothing
                 out.append(json.loads(ln))
     return out
 
